@@ -190,7 +190,7 @@ func init() {
 				want = append(want, "sym "+op+" int", "sym "+op+" float", "sym "+op+" time")
 			}
 			want = append(want, "sym = bool", "sym != bool", "sym = null", "sym != null", "sym(dotted) = str", "sym(map) = str", "sym(map) = int", "anyOf(dotted) = str", "count = int", "count(subquery) = int", "isEmpty", "isEmpty(subquery)", "boolsym")
-			return map[string][]string{"cell": want, "cell_with_null_operand": {"sym = str", "sym != str", "sym < int", "sym not in str", "sym not between int", "sym not contains str", "sym = bool", "sym in time"}}
+			return map[string][]string{"coerced_number_text": {"0.00005 under in", "0.00005 under not in", "0.00005 under =", "5 under in"}, "cell": want, "cell_with_null_operand": {"sym = str", "sym != str", "sym < int", "sym not in str", "sym not between int", "sym not contains str", "sym = bool", "sym in time"}}
 		},
 		MinCounters: func(core.Tier) map[string]int64 { return map[string]int64{"judged": 3000, "paths_compared": 9000} },
 	})
@@ -275,6 +275,31 @@ func runC01(c *core.Ctx, idx int) {
 				} else {
 					// (at least k members: the same answer whether or not the empty string counts as one, unless it decides)
 					e = qx.Cmp{L: qx.LHS{Kind: "count", Sub: all}, Op: ">=", R: []qx.Lit{qx.LInt(int64(k + 1))}}
+				}
+			}
+			if store == qx.Things && !viaChild && k >= 5 && k < 9 {
+				// number-to-string coercion, scripted: a string field is compared with the number whose text a row holds -
+				// under = / != / in / not in alike, also when the number's shortest rendering has an exponent
+				texts := map[string]qx.Lit{"5": qx.LInt(5), "2.25": qx.LFloat(2.25, "2.25"), "0.5": qx.LFloat(0.5, "0.5"), "0.00005": qx.LFloat(0.00005, "0.00005")}
+				var held []string
+				for _, id := range all {
+					if sv, ok := env.w.Rows[qx.Things][id].V["s"].(string); ok {
+						if _, num := texts[sv]; num && !contains(held, sv) {
+							held = append(held, sv)
+						}
+					}
+				}
+				sort.Strings(held)
+				if len(held) > 0 {
+					txt := held[(k+idx)%len(held)]
+					op := []string{"=", "in", "not in", "!="}[k-5]
+					lits := []qx.Lit{texts[txt]}
+					if op == "in" || op == "not in" {
+						lits = append(lits, qx.LInt(10))
+					}
+					e = qx.Cmp{L: qx.LHS{Kind: "sym", Sym: "s"}, Op: op, R: lits}
+					c.Count("scripted_number_to_string_comparisons", 1)
+					c.Cover("coerced_number_text", txt+" under "+op)
 				}
 			}
 			if viaKidlist && k < 5 {
